@@ -41,7 +41,7 @@ def run(prop, tier, seed, work):
     rng = random.Random(seed * 9173 + 41)
     quick = tier == "quick"
     registry_mc(work, res, quick)
-    ncopies = 36 if quick else 400
+    ncopies = 36 if quick else 1500
     defs = {"Steady": struct([field(1, "default", T("i32")), field(2, "default", M(T("string"), L(T("i64")))), field(3, "optional", T("string", True))])}
     # nested structs with declared defaults: the decoder calls their default initialiser through a cached interface value
     dn = struct([field(1, "optional", T("i32")), field(2, "optional", T("string")), field(3, "optional", T("i64")), field(4, "default", T("i16"))], init=True)
